@@ -41,7 +41,7 @@ def fail(node, why):
 # ----------------------------------------------------------------------------------------------
 # tables (must agree with coq/Base/PyMini.v)
 
-BUILTINS = {"len", "ord", "min", "max"}            # PyMini.builtin
+BUILTINS = {"len", "ord", "min", "max", "isinstance"}            # PyMini.builtin
 EXNS = {"IndexError": "IndexError", "TypeError": "TypeError", "ValueError": "ValueError",
         "AttributeError": "AttributeError", "KeyError": "KeyError"}
 BINOPS = {ast.Add: "Add", ast.Sub: "Sub", ast.Mult: "Mult"}
@@ -66,13 +66,46 @@ def clist(items):
 
 # ----------------------------------------------------------------------------------------------
 
+def function_kind(fn, in_class):
+    """KFunction / KMethod / KClassMethod / KProperty (printed as KMethod; read as `self.name`) /
+    KProcedure (a method other than __init__ none of whose returns carries a value)"""
+    if not in_class:
+        return "KFunction"
+    decs = [d.id for d in fn.decorator_list if isinstance(d, ast.Name)]
+    if "classmethod" in decs:
+        return "KClassMethod"
+    if "property" in decs:
+        return "KProperty"
+    if fn.name == "__init__":
+        return "KMethod"
+    rets = [n for n in ast.walk(fn) if isinstance(n, ast.Return)]
+    if all(r.value is None or (isinstance(r.value, ast.Constant) and r.value.value is None) for r in rets):
+        return "KProcedure"
+    return "KMethod"
+
+
 class FunctionTranslator:
     """Translates one FunctionDef. `globals_ok(name, node)` validates a non-local name."""
 
-    def __init__(self, fn, in_class, globals_ok, cls_node=None):
+    def __init__(self, fn, in_class, globals_ok, cls_node=None, kinds=None):
         self.fn = fn
         self.in_class = in_class
         self.cls_node = cls_node
+        self.kinds = kinds or {}            # translated methods of this class: name -> kind
+        self.props = set()                  # every @property of the class, translated or not
+        if cls_node is not None:
+            for n in cls_node.body:
+                if isinstance(n, (ast.FunctionDef, ast.AsyncFunctionDef)):
+                    for d in n.decorator_list:
+                        if isinstance(d, ast.Name) and d.id == "property":
+                            self.props.add(n.name)
+                        elif isinstance(d, ast.Attribute) and d.attr in ("setter", "deleter", "getter"):
+                            raise TranslateError(f"line {n.lineno}: property setter / deleter in the class")
+        self.kind = function_kind(fn, in_class)
+        self.receiver = fn.args.args[0].arg if (in_class and fn.args.args) else None
+        self.stringio = self._stringio_locals(fn)
+        if self.receiver == "self":
+            self._check_self_uses(fn)
         self.globals_ok = globals_ok
         self.locals = self._locals(fn)
 
@@ -115,6 +148,45 @@ class FunctionTranslator:
             fail(fn, "renaming of locals is not injective")
         return names
 
+    def _stringio_locals(self, fn):
+        """locals that only ever hold an io.StringIO(): every assignment to them is `x = io.StringIO()`"""
+        def is_new(v):
+            return (isinstance(v, ast.Call) and not v.args and not v.keywords and isinstance(v.func, ast.Attribute)
+                    and v.func.attr == "StringIO" and isinstance(v.func.value, ast.Name) and v.func.value.id == "io")
+        cand, other = set(), set()
+        for n in ast.walk(fn):
+            if isinstance(n, ast.Assign) and len(n.targets) == 1 and isinstance(n.targets[0], ast.Name):
+                (cand if is_new(n.value) else other).add(n.targets[0].id)
+            elif isinstance(n, ast.Assign) and any(is_new(x) for x in ast.walk(n.value)):
+                fail(n, "io.StringIO() assigned to something other than one local name")
+        for n in ast.walk(fn):
+            if isinstance(n, ast.Name) and isinstance(n.ctx, ast.Store) and n.id in cand:
+                pass
+        names = {p.arg for p in fn.args.args}
+        bad = cand & (other | names)
+        if bad:
+            fail(fn, f"local {sorted(bad)} holds an io.StringIO() and something else")
+        # every other occurrence must be the receiver of .write(..) / .getvalue()
+        ok = set()
+        for n in ast.walk(fn):
+            if isinstance(n, ast.Call) and isinstance(n.func, ast.Attribute) and isinstance(n.func.value, ast.Name) \
+                    and n.func.value.id in cand and n.func.attr in ("write", "getvalue"):
+                ok.add(id(n.func.value))
+        for n in ast.walk(fn):
+            if isinstance(n, ast.Name) and n.id in cand and isinstance(n.ctx, ast.Load) and id(n) not in ok:
+                fail(n, "a StringIO local is used other than as the receiver of .write / .getvalue (aliasing)")
+        return cand
+
+    def _check_self_uses(self, fn):
+        """values are immutable in PyMini: `self` may only be read through attributes (no aliasing)"""
+        ok = set()
+        for n in ast.walk(fn):
+            if isinstance(n, ast.Attribute) and isinstance(n.value, ast.Name) and n.value.id == "self":
+                ok.add(id(n.value))
+        for n in ast.walk(fn):
+            if isinstance(n, ast.Name) and n.id == "self" and id(n) not in ok:
+                fail(n, "`self` used other than as `self.<attribute>` (aliasing of the instance)")
+
     def local(self, name):
         """the PyMini name of a bound Python name"""
         return cstr(self.rename.get(name, name))
@@ -127,14 +199,16 @@ class FunctionTranslator:
             fail(fn, "async def")
         if a.posonlyargs or a.vararg or a.kwonlyargs or a.kwarg or a.kw_defaults:
             fail(fn, "parameter kinds other than plain positional-or-keyword")
-        kind = "KMethod" if self.in_class else "KFunction"
+        kind = self.kind
+        if len(fn.decorator_list) > 1:
+            fail(fn, "more than one decorator")
         for d in fn.decorator_list:
-            if isinstance(d, ast.Name) and d.id == "classmethod" and self.in_class:
-                if kind != "KMethod":
-                    fail(d, "more than one decorator")
-                kind = "KClassMethod"
-            else:
-                fail(d, "decorator outside the table (classmethod)")
+            if not (isinstance(d, ast.Name) and d.id in ("classmethod", "property") and self.in_class):
+                fail(d, "decorator outside the table (classmethod, property)")
+        if kind == "KProperty":
+            if len(a.args) != 1:
+                fail(fn, "property with parameters")
+            kind = "KMethod"
         if self.in_class and not a.args:
             fail(fn, "method without a receiver parameter")
         want = {"KMethod": "self", "KClassMethod": "cls"}.get(kind)
@@ -146,8 +220,12 @@ class FunctionTranslator:
             j = i - (len(a.args) - nd)
             if j >= 0:
                 d = a.defaults[j]
+                if isinstance(d, ast.Name) and d.id not in self.locals:
+                    self.globals_ok(d.id, d)          # a module-level object (evaluated at definition time)
+                    params.append(f"({cstr(p.arg)}, Some (EGlobal {cstr(d.id)}))")
+                    continue
                 if not isinstance(d, ast.Constant):
-                    fail(d, "default value that is not a constant")
+                    fail(d, "default value that is not a constant or a module-level name")
                 params.append(f"({cstr(p.arg)}, Some {self.expr(d)})")
             else:
                 params.append(f"({cstr(p.arg)}, None)")
@@ -181,6 +259,11 @@ class FunctionTranslator:
         if isinstance(e, ast.Attribute):
             if not isinstance(e.ctx, ast.Load):
                 fail(e, "attribute in a non-load context")
+            if isinstance(e.value, ast.Name) and e.value.id == "self" and self.receiver == "self" \
+                    and e.attr in self.props:
+                if self.kinds.get(e.attr) != "KProperty":
+                    fail(e, f"self.{e.attr} is a property that is not among the translated functions")
+                return f"(EProp {E(e.value)} {cstr(e.attr)})"
             return f"(EAttr {E(e.value)} {cstr(e.attr)})"
         if isinstance(e, ast.BinOp):
             op = BINOPS.get(type(e.op))
@@ -285,6 +368,13 @@ class FunctionTranslator:
                 fail(e, "getattr() is supported only with a constant attribute name")
             d = f"(Some {E(e.args[2])})" if len(e.args) == 3 else "None"
             return f"(EGetattr {E(e.args[0])} {cstr(e.args[1].value)} {d})"
+        if isinstance(f, ast.Attribute) and isinstance(f.value, ast.Name):
+            if f.value.id == "self" and self.receiver == "self" and self.kinds.get(f.attr) == "KProcedure":
+                fail(e, f"self.{f.attr}(..) never returns a value: supported only as a statement")
+            if f.value.id == "self" and self.receiver == "self" and f.attr in self.props:
+                fail(e, "call of a property")
+            if f.value.id in self.stringio and f.attr != "getvalue":
+                fail(e, "StringIO.write(..) is supported only as a statement")
         if isinstance(f, ast.Name):
             if f.id in self.locals or f.id in scope:
                 fail(e, "call of a local name")
@@ -320,6 +410,21 @@ class FunctionTranslator:
                     and isinstance(v.func.value, ast.Call) and isinstance(v.func.value.func, ast.Name)
                     and v.func.value.func.id == "super"):
                 return self.super_init(s, v)
+            if isinstance(v, ast.Call) and isinstance(v.func, ast.Attribute) and isinstance(v.func.value, ast.Name):
+                recv, m = v.func.value.id, v.func.attr
+                plain = not any(isinstance(a, ast.Starred) for a in v.args) and all(k.arg for k in v.keywords)
+                if recv == "self" and self.receiver == "self" and self.kinds.get(m) == "KProcedure":
+                    if not plain:
+                        fail(s, "*args / **kwargs in a call")
+                    if self.kind not in ("KProcedure",) and self.fn.name != "__init__":
+                        fail(s, "a method that returns a value calls a procedure on self (the change would be lost)")
+                    args = clist([E(a) for a in v.args])
+                    kws = clist([f"({cstr(k.arg)}, {E(k.value)})" for k in v.keywords])
+                    return f"SSelfCall {cstr(m)} {args} {kws}"
+                if recv in self.stringio and m == "write":
+                    if not plain or v.keywords:
+                        fail(s, "StringIO.write with other than positional arguments")
+                    return f"SMutCall {self.local(recv)} {cstr(m)} {clist([E(a) for a in v.args])}"
             return f"SExpr {E(s.value)}"
         if isinstance(s, ast.Assign):
             if len(s.targets) != 1:
@@ -330,7 +435,9 @@ class FunctionTranslator:
             if isinstance(t, ast.Tuple) and all(isinstance(x, ast.Name) for x in t.elts):
                 return f"SUnpack {clist([self.local(x.id) for x in t.elts])} {E(s.value)}"
             if isinstance(t, ast.Attribute) and isinstance(t.value, ast.Name) and t.value.id == "self" \
-                    and self.fn.name == "__init__" and self.in_class:
+                    and (self.fn.name == "__init__" or self.kind == "KProcedure") and self.in_class:
+                if t.attr in self.props:
+                    fail(s, "assignment to a property")
                 return f"SSetAttr {cstr('self')} {cstr(t.attr)} {E(s.value)}"
             fail(s, "assignment target outside the supported subset (mutation of an argument?)")
         if isinstance(s, ast.AugAssign):
@@ -345,7 +452,21 @@ class FunctionTranslator:
                 fail(s, "while ... else")
             return f"SWhile {E(s.test)} {self.block(s.body, ind + 2)}"
         if isinstance(s, ast.Return):
+            if self.kind == "KProcedure":
+                return "SReturnSelf"              # function_kind: every return of a procedure is bare / None
             return "SReturn None" if s.value is None else f"SReturn (Some {E(s.value)})"
+        if isinstance(s, ast.For):
+            it = s.iter
+            if s.orelse or not (isinstance(s.target, ast.Tuple) and len(s.target.elts) == 2
+                                and all(isinstance(x, ast.Name) for x in s.target.elts)
+                                and isinstance(it, ast.Call) and isinstance(it.func, ast.Name)
+                                and it.func.id == "enumerate" and it.func.id not in self.locals
+                                and len(it.args) == 1 and not it.keywords
+                                and not isinstance(it.args[0], ast.Starred)):
+                fail(s, "for loop other than `for i, x in enumerate(<list>)` without else")
+            self.globals_ok("enumerate", it.func)
+            xi, xv = (self.local(x.id) for x in s.target.elts)
+            return f"SForEnum {xi} {xv} {E(it.args[0])} {self.block(s.body, ind + 2)}"
         if isinstance(s, ast.Break):
             return "SBreak"
         if isinstance(s, ast.Continue):
@@ -499,7 +620,7 @@ def translate_module(modname, functions, global_table, out_name, reflect_checks)
                 fail(node, f"base class {base}: its __init__ is not among the translated functions")
             return
         b = binds.get(name)
-        if name in BUILTINS or name in ("sum", "getattr", "super") or name in EXNS:
+        if name in BUILTINS or name in ("sum", "getattr", "super", "enumerate") or name in EXNS:
             if b is not None:
                 fail(node, f"builtin {name} is rebound at module level")
             return
@@ -517,6 +638,9 @@ def translate_module(modname, functions, global_table, out_name, reflect_checks)
         if not ok(b):
             fail(node, f"global name {name!r} is bound to {b!r}, not to what the table expects")
 
+    kinds = {}
+    for cls, name in functions:
+        kinds.setdefault(cls, {})[name] = function_kind(find_function(tree, cls, name), cls is not None)
     defs, idents = [], []
     for cls, name in functions:
         fn = find_function(tree, cls, name)
@@ -527,7 +651,7 @@ def translate_module(modname, functions, global_table, out_name, reflect_checks)
             cnode = [n for n in tree.body if isinstance(n, ast.ClassDef) and n.name == cls][0]
             if cnode.decorator_list:
                 raise TranslateError(f"class {cls} is decorated")
-        defs.append(FunctionTranslator(fn, cls is not None, globals_ok, cnode).translate(qual, ident))
+        defs.append(FunctionTranslator(fn, cls is not None, globals_ok, cnode, kinds.get(cls)).translate(qual, ident))
         idents.append(ident)
     if len(set(idents)) != len(idents):
         raise TranslateError("identifier clash in the generated file")
@@ -589,11 +713,18 @@ def _reflect_codec():
     p = t.Position(1, 2)
     if (p.line, p.character) != (1, 2) or t.Position(line=3, character=4) != t.Position(3, 4):
         raise TranslateError("types.Position constructor")
+    fields = [a.name for a in attr.fields(t.Range)]
+    if fields != ["start", "end"]:
+        raise TranslateError(f"types.Range fields are {fields}")
+    r = t.Range(start=t.Position(1, 2), end=t.Position(3, 4))
+    if (r.start, r.end) != (t.Position(1, 2), t.Position(3, 4)) or t.Range(t.Position(1, 2), t.Position(3, 4)) != r:
+        raise TranslateError("types.Range constructor")
 
 
 CODEC_FUNCTIONS = [("PositionCodec", n) for n in (
     "is_char_beyond_multilingual_plane", "utf16_unit_offset", "client_num_units",
-    "position_from_client_units", "position_to_client_units")]
+    "position_from_client_units", "position_to_client_units",
+    "range_from_client_units", "range_to_client_units")]
 
 
 def gen_codec():
@@ -688,7 +819,77 @@ def gen_uris():
         raise
 
 
-GENERATORS = {"codec": gen_codec, "exceptions": gen_exceptions, "uris": gen_uris}
+# ----------------------------------------------------------------------------------------------
+# (D) workspace/text_document.py
+
+DOC_RES = {"RE_LINE": r"[^\r\n]*(?:\r\n|\r|\n)|[^\r\n]+", "RE_START_WORD": "[A-Za-z_0-9]*$",
+           "RE_END_WORD": "^[A-Za-z_0-9]*"}
+
+
+def _is_re(name):
+    """NAME = re.compile(<the literal PyMini.global_method gives a meaning to>), no flags"""
+    def ok(b):
+        if b is None or b[0] != "assign" or not isinstance(b[1], ast.Assign) or len(b[1].targets) != 1:
+            return False
+        v = b[1].value
+        return (isinstance(v, ast.Call) and isinstance(v.func, ast.Attribute) and v.func.attr == "compile"
+                and isinstance(v.func.value, ast.Name) and v.func.value.id == "re" and not v.keywords
+                and len(v.args) == 1 and isinstance(v.args[0], ast.Constant) and v.args[0].value == DOC_RES[name])
+    return ok
+
+
+def _is_logger(b):
+    """logger = logging.getLogger(...)"""
+    if b is None or b[0] != "assign" or not isinstance(b[1], ast.Assign) or len(b[1].targets) != 1:
+        return False
+    v = b[1].value
+    return (isinstance(v, ast.Call) and isinstance(v.func, ast.Attribute) and v.func.attr == "getLogger"
+            and isinstance(v.func.value, ast.Name) and v.func.value.id == "logging")
+
+
+def _reflect_doc():
+    import re, io, logging
+    m = importlib.import_module("pygls.workspace.text_document")
+    t = importlib.import_module("lsprotocol.types")
+    noflags = re.compile("x").flags
+    for name, lit in DOC_RES.items():
+        r = getattr(m, name)
+        if not isinstance(r, re.Pattern) or r.pattern != lit or r.flags != noflags:
+            raise TranslateError(f"{name} is not the pattern PyMini models")
+    if m.re is not re or m.io is not io or m.logging is not logging or not isinstance(m.logger, logging.Logger):
+        raise TranslateError("re / io / logging / logger are not the standard ones")
+    P, W = t.TextDocumentContentChangePartial, t.TextDocumentContentChangeWholeDocument
+    if issubclass(P, W) or issubclass(W, P) or P.__subclasses__() or W.__subclasses__():
+        raise TranslateError("the two content-change classes are related by subclassing")
+    import attr
+    if [a.name for a in attr.fields(P)][:1] != ["range"] or "text" not in [a.name for a in attr.fields(P)] \
+            or "text" not in [a.name for a in attr.fields(W)]:
+        raise TranslateError("fields of the content-change classes")
+    if m.types is not t:
+        raise TranslateError("types is not lsprotocol.types")
+    _reflect_codec()
+
+
+DOC_FUNCTIONS = [("TextDocument", n) for n in (
+    "source", "lines", "_apply_incremental_change", "_apply_full_change", "_apply_none_change", "apply_change",
+    "offset_at_position", "word_at_position")]
+
+
+def gen_doc():
+    imp = lambda mod: (lambda b: b == ("import", mod, None))
+    try:
+        return translate_module(
+            "pygls.workspace.text_document", DOC_FUNCTIONS,
+            {"types": _is_from("lsprotocol", "types"), "io": imp("io"), "pathlib": imp("pathlib"),
+             "logger": _is_logger, "RE_LINE": _is_re("RE_LINE"), "RE_START_WORD": _is_re("RE_START_WORD"),
+             "RE_END_WORD": _is_re("RE_END_WORD")},
+            "AstDoc.v", _reflect_doc)
+    except Exception as e:
+        poison("AstDoc.v", repr(e))
+        raise
+
+
+GENERATORS = {"codec": gen_codec, "exceptions": gen_exceptions, "uris": gen_uris, "doc": gen_doc}
 
 if __name__ == "__main__":
     which = sys.argv[1:] or ["codec"]
